@@ -1554,6 +1554,33 @@ def rule_mount_scope(ctx, facts, rule):
 
 
 
+def rule_record_attachments_only_mounted(ctx, facts, rule):
+    """Who may add to a finished record: events and properties are appended to a SpanRecord in mount_danglings only, which looks the
+    record up by the id the attachment was made under. Any other site that pushes onto `record.events` / `record.properties` hands a
+    record something that was attached elsewhere (e.g. leftovers of a span that never arrived 'adopted' by the root)."""
+    bad, n = [], 0
+    for p, fn in facts.fns.items():
+        if fn.crate != "fastrace" or EXCLUDE.search(p):
+            continue
+        for b in fn.calls_re(r"alloc::vec::Vec::<T, A>::(push|extend\w*|append|insert|splice)$|Extend(<.*>)?>?::extend$", cleanup=False):
+            t = fn.term(b)
+            if not t["args"] or t["args"][0]["k"] not in ("copy", "move"):
+                continue
+            l, flds = root_local(fn, t["args"][0])
+            if not flds or flds[-1] not in (".events", ".properties"):
+                continue
+            if "SpanRecord" not in fn.locals[l]:
+                continue
+            n += 1
+            if not re.search(r"global_collector::mount_danglings(::\{closure#\d+\})*$", p):
+                bad.append((p, fn.loc(b), flds[-1]))
+    ctx.check(not bad and n >= 2, rule, "fastrace::collector::global_collector::mount_danglings", "-",
+              "events and properties are appended to a finished record by mount_danglings only (looked up by the id they were attached under)",
+              "%d append sites, all in mount_danglings" % n,
+              "other sites appending to a record's events / properties: %s (found %d sites in all, 2 confirmed by hand on the pinned tree)" % (bad, n),
+              extra="record-writers")
+
+
 def rule_rawspan_copy_keeps_times(ctx, facts, rule):
     """A copy of a recorded span is the same span: `<RawSpan as Clone>::clone` (hand-written or derived) hands every id and
     time stamp of `self` over unchanged. In particular end_instant is copied, not reset to the "still open" sentinel
